@@ -72,8 +72,11 @@ func (v *Vue) evalAttributes(ctx VueContext, n *html.Node) (map[string]any, erro
 				newAttrs = append(newAttrs, html.Attribute{Key: key, Val: val})
 				continue
 			}
-			if containsInterpolation(val) {
-				boundValue, err = v.interpolate(ctx, val)
+			// Static (and bracketed) attributes keep their value as written,
+			// including leading and trailing blanks.
+			boundValue = a.Val
+			if containsInterpolation(a.Val) {
+				boundValue, err = v.interpolate(ctx, a.Val)
 				if err != nil {
 					return nil, fmt.Errorf("error evaluating attr %s: %w", boundName, err)
 				}
